@@ -6,6 +6,7 @@ import (
 	"go/constant"
 	"go/token"
 	"go/types"
+	"math"
 	"sort"
 	"strings"
 
@@ -374,25 +375,50 @@ func c19histogram(p *core.Prog, res *core.Result, info *types.Info, cc *ast.Case
 	default:
 		res.OK("G4", "histogram|membership", p.Pos(cond.Pos()), fmt.Sprintf("equals b <= v < b+w on all %d orderings of (v, b, w>=1)", n))
 	}
-	// alignment: bucket := math.Floor(min/w) * w
-	aligned := false
+	// alignment: the first bucket equals floor(min/w)*w.  The start expression is evaluated
+	// arithmetically (it mentions only the minimum, the interval, constants, + - * / and
+	// math.Floor/Ceil/Trunc/Mod/Abs) on a grid that includes negative minima off the bucket edges.
 	if init, ok := outer.Init.(*ast.AssignStmt); ok && len(init.Rhs) == 1 {
-		if mul, ok := ast.Unparen(init.Rhs[0]).(*ast.BinaryExpr); ok && mul.Op == token.MUL {
-			for _, pair := range [][2]ast.Expr{{mul.X, mul.Y}, {mul.Y, mul.X}} {
-				if call, ok := ast.Unparen(pair[0]).(*ast.CallExpr); ok && defOrUse(info, pair[1]) == width {
-					if fn := core.CalleeFunc(info, call); fn != nil && fn.Name() == "Floor" && len(call.Args) == 1 {
-						if div, ok := ast.Unparen(call.Args[0]).(*ast.BinaryExpr); ok && div.Op == token.QUO && defOrUse(info, div.Y) == width {
-							aligned = true
-						}
+		var minVar types.Object
+		ast.Inspect(init.Rhs[0], func(n ast.Node) bool {
+			if id, ok := n.(*ast.Ident); ok {
+				if v, ok := info.Uses[id].(*types.Var); ok && v != width {
+					if bt, ok := v.Type().Underlying().(*types.Basic); ok && bt.Info()&types.IsNumeric != 0 {
+						minVar = v
 					}
 				}
 			}
+			return true
+		})
+		var witness string
+		evaluable := minVar != nil
+		cells := 0
+		for _, m := range []float64{-7.5, -5, -2.5, -0.5, 0, 0.5, 3, 7.5, 10} {
+			for _, w := range []float64{1, 2.5, 5} {
+				if !evaluable {
+					break
+				}
+				got, ok := arithEval(info, init.Rhs[0], map[types.Object]float64{minVar: m, width: w})
+				if !ok {
+					evaluable = false
+					break
+				}
+				cells++
+				if want := math.Floor(m/w) * w; got != want && witness == "" {
+					witness = fmt.Sprintf("for min=%v interval=%v the first bucket starts at %v, expected %v", m, w, got, want)
+				}
+			}
 		}
-	}
-	if aligned {
-		res.OK("G4", "histogram|alignment", p.Pos(outer.Pos()), "first bucket is floor(min/w)*w")
+		switch {
+		case !evaluable:
+			res.Unres("G4", "histogram|alignment", p.Pos(outer.Pos()), "start of the first bucket is not an arithmetic expression of the minimum and the interval: "+types.ExprString(init.Rhs[0]))
+		case witness != "":
+			res.Bad("G4", "histogram|alignment", p.Pos(outer.Pos()), fmt.Sprintf("the first histogram bucket (%s) is not floor(min/interval)*interval: %s — the values below it fall into no bucket, or buckets are not aligned to multiples of the interval", types.ExprString(init.Rhs[0]), witness))
+		default:
+			res.OK("G4", "histogram|alignment", p.Pos(outer.Pos()), fmt.Sprintf("%s equals floor(min/w)*w on %d (min, interval) pairs including negative minima off the bucket edges", types.ExprString(init.Rhs[0]), cells))
+		}
 	} else {
-		res.Bad("G4", "histogram|alignment", p.Pos(outer.Pos()), "the first histogram bucket is not floor(min/interval)*interval: buckets are not aligned to multiples of the interval")
+		res.Unres("G4", "histogram|alignment", p.Pos(outer.Pos()), "bucket loop has no start assignment")
 	}
 	// coverage: loop continues while bucket <= max
 	covered := false
@@ -454,4 +480,80 @@ func c19selftest(st *core.Prog, res *core.Result) {
 			res.OKTrivial("SELF", "selftest|c19."+name, "-", "aggregation rules give "+string(got)+" as expected")
 		}
 	}
+}
+
+// arithEval evaluates an arithmetic expression over the given variables.
+func arithEval(info *types.Info, e ast.Expr, vals map[types.Object]float64) (float64, bool) {
+	e = ast.Unparen(e)
+	if tv, ok := info.Types[e]; ok && tv.Value != nil && (tv.Value.Kind() == constant.Int || tv.Value.Kind() == constant.Float) {
+		f, _ := constant.Float64Val(constant.ToFloat(tv.Value))
+		return f, true
+	}
+	switch x := e.(type) {
+	case *ast.Ident:
+		if v, ok := vals[info.Uses[x]]; ok {
+			return v, true
+		}
+	case *ast.UnaryExpr:
+		if x.Op == token.SUB {
+			v, ok := arithEval(info, x.X, vals)
+			return -v, ok
+		}
+	case *ast.BinaryExpr:
+		a, ok1 := arithEval(info, x.X, vals)
+		b, ok2 := arithEval(info, x.Y, vals)
+		if !ok1 || !ok2 {
+			return 0, false
+		}
+		switch x.Op {
+		case token.ADD:
+			return a + b, true
+		case token.SUB:
+			return a - b, true
+		case token.MUL:
+			return a * b, true
+		case token.QUO:
+			if b == 0 {
+				return 0, false
+			}
+			return a / b, true
+		}
+	case *ast.CallExpr:
+		if tv, ok := info.Types[x.Fun]; ok && tv.IsType() && len(x.Args) == 1 {
+			v, ok := arithEval(info, x.Args[0], vals)
+			if bt, isB := tv.Type.Underlying().(*types.Basic); ok && isB && bt.Info()&types.IsInteger != 0 {
+				return math.Trunc(v), true
+			}
+			return v, ok
+		}
+		fn := core.CalleeFunc(info, x)
+		if fn == nil || fn.Pkg() == nil || fn.Pkg().Path() != "math" {
+			return 0, false
+		}
+		var args []float64
+		for _, a := range x.Args {
+			v, ok := arithEval(info, a, vals)
+			if !ok {
+				return 0, false
+			}
+			args = append(args, v)
+		}
+		switch {
+		case fn.Name() == "Floor" && len(args) == 1:
+			return math.Floor(args[0]), true
+		case fn.Name() == "Ceil" && len(args) == 1:
+			return math.Ceil(args[0]), true
+		case fn.Name() == "Trunc" && len(args) == 1:
+			return math.Trunc(args[0]), true
+		case fn.Name() == "Abs" && len(args) == 1:
+			return math.Abs(args[0]), true
+		case fn.Name() == "Mod" && len(args) == 2:
+			return math.Mod(args[0], args[1]), true
+		case fn.Name() == "Min" && len(args) == 2:
+			return math.Min(args[0], args[1]), true
+		case fn.Name() == "Max" && len(args) == 2:
+			return math.Max(args[0], args[1]), true
+		}
+	}
+	return 0, false
 }
